@@ -1,7 +1,9 @@
 package logqlmetric
 
 import (
+	"cmp"
 	"math"
+	"slices"
 
 	"github.com/tdakkota/docker-logql/internal/otelstorage"
 )
@@ -33,6 +35,29 @@ func (a Sample) Greater(b Sample) bool {
 		return a.Set.Key() > b.Set.Key()
 	}
 	return math.IsNaN(a.Data) || a.Data > b.Data
+}
+
+// sortSamples orders samples by grouping key: samples are collected from maps, and
+// float aggregation (sum, avg, stddev) over them must not depend on map iteration order.
+func sortSamples(samples []Sample) {
+	if len(samples) < 2 {
+		return
+	}
+	// Compute every key once, hashing is not free.
+	type keyed struct {
+		key    GroupingKey
+		sample Sample
+	}
+	sorted := make([]keyed, len(samples))
+	for i, s := range samples {
+		sorted[i] = keyed{key: s.Set.Key(), sample: s}
+	}
+	slices.SortFunc(sorted, func(a, b keyed) int {
+		return cmp.Compare(a.key, b.key)
+	})
+	for i, k := range sorted {
+		samples[i] = k.sample
+	}
 }
 
 // Series is a grouped set of metric points.
